@@ -350,9 +350,39 @@ def fixed_frozen_cases(g):
         g.count("frozen:leading-cookie-bytes")
 
 
+def fixed_frozen_write_cases(g):
+    """always present: writes on a frozen view that change the SHAPE of the chunk list (a first / middle / last chunk disappears, in-place
+    intersections and differences drop chunks, clear-and-refill, reload of the view object), each on a view over a writable (`rw`) and over
+    a protected buffer; after every step the image must be byte-identical and still open as the original"""
+    slots = "2:A:5,9,300;5:B:32768:5555555555555555*1024;8:R:10+90,1000+5;11:A:7;14:R:0+65535"
+    x, o, o2 = g.fresh("fw"), g.fresh("fw"), g.fresh("fw")
+    g.emit("mkrepr %s cow=0;%s" % (x, slots))
+    g.emit("mkrepr %s cow=0;5:A:1,3;11:A:7;14:A:9" % o)
+    g.emit("mkrepr %s cow=0;2:R:0+65535;8:R:0+65535" % o2)
+    steps = [["remr %s %d %d" % ("%s", 2 * CH, 3 * CH)], ["remr %s %d %d" % ("%s", 8 * CH, 9 * CH)], ["remr %s %d %d" % ("%s", 14 * CH, 15 * CH)],
+             ["rem %%s %d" % (11 * CH + 7)], ["crem %%s %d" % (11 * CH + 7)], ["flip %%s %d %d" % (11 * CH + 7, 11 * CH + 8)],
+             ["iand %%s %s" % o], ["iandnot %%s %s" % o2], ["clear %s", "add %%s %d" % (3 * CH)], ["remr %%s 0 %d" % (12 * CH)],
+             ["rem %%s %d" % (11 * CH + 7), "add %%s %d" % (11 * CH + 7), "rem %%s %d" % (2 * CH + 5)]]
+    for j, st in enumerate(steps):
+        for mode in ("rw", ""):
+            w = g.fresh("fw")
+            g.emit(("fview %s %s %s" % (w, x, mode)).strip())
+            for c in st:
+                g.emit(c % w)
+                g.emit("fchk %s" % w)
+            g.emit("wf %s" % w)
+            g.emit("dig %s" % w)
+            v2 = g.fresh("fw")
+            g.emit("fview %s %s" % (v2, x))
+            g.emit("eq %s %s" % (v2, x))
+        g.count("frozen:fixed-shape-changing-writes")
+    g.emit("dig %s" % x)
+
+
 @suite("frozen")
 def _frozen(g, scale):
     fixed_frozen_cases(g)
+    fixed_frozen_write_cases(g)
     r = g.r
     bms = make_bitmaps(g, scale)
     # phase A: writers
